@@ -8,6 +8,7 @@ import (
 	"fmt"
 	"io"
 	"math"
+	"sort"
 	"strconv"
 	"strings"
 
@@ -193,8 +194,19 @@ func kindOf(n node.Node) Kind {
 	return KRoot
 }
 
+// DumpTreeByPos is DumpTree with the cells numbered in the order of Pos() (allocation order).  For
+// streams that honour the Parser contract both orders coincide; for other streams a namespace node
+// emitted late is allocated after the nodes it is listed before.
+func DumpTreeByPos(root store.Cursor) *Dump {
+	return dumpTree(root, true)
+}
+
 // DumpTree walks root, Namespaces(), Attributes(), Children() in that order.
 func DumpTree(root store.Cursor) *Dump {
+	return dumpTree(root, false)
+}
+
+func dumpTree(root store.Cursor, byPos bool) *Dump {
 	d := &Dump{Index: map[store.Cursor]int{}}
 	var visit func(c store.Cursor)
 	visit = func(c store.Cursor) {
@@ -215,6 +227,22 @@ func DumpTree(root store.Cursor) *Dump {
 		}
 	}
 	visit(root)
+	if byPos {
+		seen := map[int]bool{}
+		unique := true
+		for _, c := range d.Cursors {
+			if seen[c.Pos()] {
+				unique = false
+			}
+			seen[c.Pos()] = true
+		}
+		if unique {
+			sort.SliceStable(d.Cursors, func(i, j int) bool { return d.Cursors[i].Pos() < d.Cursors[j].Pos() })
+			for i, c := range d.Cursors {
+				d.Index[c] = i
+			}
+		}
+	}
 	idx := func(cs []store.Cursor) string {
 		parts := make([]string, len(cs))
 		for i, c := range cs {
